@@ -67,6 +67,41 @@ fn window_block(cfg: &Cfg, out: &mut Vec<String>) {
 						b2.next();
 					}
 					t.push_str(&format!("{:?}{:?}{}{}", a2.last(), b2.last(), a.count(), b.count()));
+					// every consuming adaptor on an iterator that has already been advanced k times - on the
+					// CONCRETE iterator types (a boxed `dyn Iterator` would fall back to the default methods
+					// built on `next` and bypass the type's own overrides)
+					macro_rules! adaptors {
+						($mk:expr, $mk2:expr) => {{
+							let adv = || {
+								let mut i = $mk;
+								for _ in 0..k {
+									i.next();
+								}
+								i
+							};
+							let adv2 = || {
+								let mut i = $mk2;
+								for _ in 0..k {
+									i.next();
+								}
+								i
+							};
+							t.push_str(&format!("f{}", adv().fold(7u64, |acc, x| acc.wrapping_mul(31).wrapping_add(*x as u64))));
+							t.push_str(&format!("s{}", adv().map(|x| *x as u64).sum::<u64>()));
+							t.push_str(&format!("S{}", adv().copied().sum::<u32>()));
+							t.push_str(&format!("c{:?}", adv().collect::<Vec<_>>()));
+							t.push_str(&format!("m{:?}{:?}{:?}", adv().max(), adv().min(), adv().reduce(|a, b| if a > b { a } else { b })));
+							t.push_str(&format!("a{}{}{:?}{:?}", adv().any(|x| *x == 2), adv().all(|x| *x > 0), adv().position(|x| *x == 3), adv().find(|x| **x > 1)));
+							t.push_str(&format!("n{:?}{:?}{:?}", adv().nth(1), adv().skip(1).step_by(2).collect::<Vec<_>>(), adv().skip(1).fold(0u64, |a, x| a * 3 + *x as u64)));
+							let mut fe = vec![];
+							adv().for_each(|x| fe.push(*x));
+							t.push_str(&format!("e{fe:?}"));
+							t.push_str(&format!("z{:?}", adv().zip(adv2()).map(|(x, y)| x + y).collect::<Vec<_>>()));
+							t.push_str(&format!("x{:?}{:?}", adv().cloned().collect::<Vec<u32>>(), adv().enumerate().last()));
+						}};
+					}
+					adaptors!(w.iter(), w.iter_rev());
+					adaptors!(w.iter_rev(), w.iter());
 				}
 				t.push_str(&serde_json::to_string(&w).unwrap());
 				let w2: Window<u32> = serde_json::from_str(&serde_json::to_string(&w).unwrap()).unwrap();
@@ -230,11 +265,18 @@ fn methods_block(cfg: &Cfg, out: &mut Vec<String>) {
 			al3.push(In::V(-0.0)); // both zeros: exercises SMM's sorted buffer
 		}
 		let d = if cfg.small { 3 } else { 4 };
+		// second family: rounding-active values of mixed magnitudes (a different order of the same
+		// floating-point operations shows in the last bit)
+		let mx = checks::grid::mixed(sp.input);
 		for p in params {
 			let big = span(&p) > 16;
 			for v0 in &al[..2] {
-				for (si, s) in seqs(&al3, if big { 2 } else { d }).iter().enumerate() {
-					let id = format!("{}({}) v0={} #{si}", sp.name, p.show(), v0.show());
+				let mut fam: Vec<(String, Vec<In>)> = seqs(&al3, if big { 2 } else { d }).into_iter().enumerate().map(|(si, s)| (format!("#{si}"), s)).collect();
+				if !big {
+					fam.extend(seqs(&mx[..3], d + 1).into_iter().enumerate().map(|(si, s)| (format!("mixed#{si}"), s)));
+				}
+				for (si, s) in fam.iter() {
+					let id = format!("{}({}) v0={} {si}", sp.name, p.show(), v0.show());
 					if cfg.skip.contains(&id) {
 						continue;
 					}
